@@ -1112,14 +1112,15 @@ def run_chunk(ctx, name, chunk, maxk, with_ledger=False):
     try:
         c_file = build_all(ctx, name, source, wd, with_ledger)
     except cybuild.BuildError as e:
-        if len(chunk) > 1 and len(name) < 8 and e.stage != "cc":
-            # a compiler crash / rejected program is outside this property: bisect to keep the other programs
+        if len(chunk) > 1 and len(name) < 12:
+            # a compiler crash / rejected program / generated C that gcc rejects is outside this property (C43):
+            # bisect to keep the other programs
             h = len(chunk) // 2
             run_chunk(ctx, name + "a", chunk[:h], maxk, with_ledger)
             run_chunk(ctx, name + "b", chunk[h:], maxk, False)
-        elif len(chunk) == 1:
-            ctx.note("program rejected by the compiler (outside C35): %s: %s" % (
-                func_source(chunk[0][0], chunk[0][1])[:300], str(e)[-300:]))
+        elif len(chunk) == 1 and not (e.stage == "cc" and chunk[0][2]):
+            ctx.note("program rejected by the compiler%s (outside C35): %s: %s" % (
+                " (invalid C)" if e.stage == "cc" else "", func_source(chunk[0][0], chunk[0][1])[:300], str(e)[-300:]))
             ctx.strata["compiler_rejected"] = ctx.strata.get("compiler_rejected", 0) + 1
         else:
             ctx.corr_break("build", {"module": name}, str(e)[-1500:], "builds")
